@@ -350,6 +350,92 @@ theorem accOf_sublist (first : RArch) (rest : List RArch) : (accOf first rest).p
   | nil => intro acc; exact List.Sublist.refl _
   | cons a rest ih => intro acc; exact (ih _).trans (stepArch_sublist acc a)
 
+/-! ### Impl meets the Spec the driver evaluates on every Go output -/
+
+def IsFilt (l' l : List Text) : Prop := ∃ q : Text → Bool, l' = l.filter q
+
+theorem IsFilt.refl (l : List Text) : IsFilt l l :=
+  ⟨fun _ => true, (List.filter_eq_self.mpr (fun _ _ => rfl)).symm⟩
+
+theorem IsFilt.filter {l' l : List Text} (h : IsFilt l' l) (q : Text → Bool) : IsFilt (l'.filter q) l := by
+  obtain ⟨q0, rfl⟩ := h
+  exact ⟨fun x => q0 x && q x, by rw [List.filter_filter]; congr 1; funext x; exact Bool.and_comm _ _⟩
+
+theorem stepPkg_filt (next : RArch) (acc : Acc) (pkg : Text) (l : List Text) (h : IsFilt acc.packages l) :
+    IsFilt (stepPkg next acc pkg).packages l := by
+  unfold stepPkg
+  by_cases hc : mget acc.versions pkg = mget next.versions pkg
+  · simp only [hc, bne_self_eq_false, Bool.false_eq_true, ↓reduceIte]
+    split <;> exact h
+  · have hc' : (mget acc.versions pkg != mget next.versions pkg) = true := by simpa using hc
+    simp only [hc', ↓reduceIte]
+    split <;> exact h.filter _
+
+theorem foldPkg_filt (next : RArch) (L : List Text) (acc : Acc) (l : List Text) (h : IsFilt acc.packages l) :
+    IsFilt (L.foldl (stepPkg next) acc).packages l := by
+  induction L generalizing acc with
+  | nil => exact h
+  | cons p L ih => exact ih _ (stepPkg_filt next acc p l h)
+
+theorem stepArch_filt (acc : Acc) (next : RArch) (l : List Text) (h : IsFilt acc.packages l) :
+    IsFilt (stepArch acc next).packages l := by
+  unfold stepArch
+  split
+  · exact h
+  · exact foldPkg_filt next _ _ l (by simpa [inter] using h.filter _)
+
+theorem accOf_filt (first : RArch) (rest : List RArch) : IsFilt (accOf first rest).packages first.packages := by
+  unfold accOf
+  suffices ∀ acc : Acc, IsFilt acc.packages first.packages → IsFilt (rest.foldl stepArch acc).packages first.packages from
+    this _ (IsFilt.refl _)
+  induction rest with
+  | nil => intro acc h; exact h
+  | cons a rest ih => intro acc h; exact ih _ (stepArch_filt acc a _ h)
+
+/-- the accumulated package list is, as a list, the `common` list of the Spec -/
+theorem accOf_eq_common (first : RArch) (rest : List RArch) (hwf : ∀ a ∈ first :: rest, WF a) :
+    (accOf first rest).packages = common (first :: rest) := by
+  obtain ⟨q, hq⟩ := accOf_filt first rest
+  obtain ⟨s1, _⟩ := accOf_spec first rest hwf
+  rw [hq]
+  unfold common
+  apply List.filter_congr
+  intro n hn
+  have h1 : q n = true ↔ n ∈ (accOf first rest).packages := by
+    rw [hq, List.mem_filter]; exact ⟨fun h => ⟨hn, h⟩, fun h => h.2⟩
+  apply Bool.eq_iff_iff.mpr
+  rw [h1, s1 n]
+  simp only [List.all_eq_true, Bool.and_eq_true, List.contains_iff_mem, decide_eq_true_eq]
+
+/-- T `unify_meets_spec`: on every successful run the model's output passes `specCheck`, the decidable oracle the
+driver evaluates on every Go output (shared list = sorted common set, every per-architecture list exact) -/
+theorem unify_meets_spec (originals : List Text) (first : RArch) (rest : List RArch)
+    (hwf : ∀ a ∈ first :: rest, WF a) (hidx : ∀ a ∈ first :: rest, a.arch ≠ indexKey)
+    (hd : (first :: rest).Pairwise (fun x y => x.arch ≠ y.arch))
+    (byArch mba : SMap (List Text)) (h : unify originals (first :: rest) = .ok byArch mba) :
+    specCheck originals (first :: rest) byArch = none := by
+  unfold specCheck
+  split
+  · rfl
+  · next hne =>
+    have hne' : originals ≠ [] := by intro e; rw [e] at hne; exact hne rfl
+    obtain ⟨_, hb, _⟩ := unify_ok_form originals first rest hne' byArch mba h
+    obtain ⟨_, s2⟩ := accOf_spec first rest hwf
+    have hidxv : lookupT byArch indexKey = some (specIndex originals (first :: rest)) := by
+      rw [hb, foldSet_not _ _ _ _ hidx]
+      simp only [lookupT, List.find?_cons, decide_true, Option.map_some, specIndex]
+      congr 2
+      rw [← accOf_eq_common first rest hwf]
+      apply List.map_congr_left
+      intro n hn
+      simp [entry, s2 n hn]
+    have harch : (first :: rest).find? (fun a => lookupT byArch a.arch != some (archList (origPinned originals) a)) = none := by
+      rw [List.find?_eq_none]
+      intro a ha
+      rw [hb, foldSet_mem _ _ _ a hd ha]
+      simp
+    simp [hidxv, harch]
+
 /-- the full statement: the outcome of `unify` does not depend on the order of the architectures (the order of
 `inputs` is the iteration order of a Go map in `LockImageConfiguration`).  FALSE today, see `F09g_witness`. -/
 def sameUR : UR → UR → Prop
